@@ -5,9 +5,10 @@
    write(2)/writev(2) answers are [o], shutdown(2) answers [sa], [pw] says per
    loop iteration whether the descriptor polls writable, [blk] is
    UV_HANDLE_BLOCKING_WRITES, [cfg] says how the stream came to be: [None] = opened
-   connected, [Some (tcp, cres, so)] = the script starts right after uv_tcp_connect /
+   connected, [Some (tcp, cres, so, cr)] = the script starts right after uv_tcp_connect /
    uv_pipe_connect with the connect still pending - connect(2) result [cres],
-   SO_ERROR answers [so]; [ip] = the pipe was initialised for IPC; every theorem
+   SO_ERROR answers [so], connect(2) results [cr] of later connects on the handle (op
+   OConnect); [ip] = the pipe was initialised for IPC; every theorem
    quantifies over them).  [nfd t id] = number of accepted sendmsg calls in t that
    carried the descriptor of request id (events [EFd]); [EWrite2 id] marks a
    uv_write2 call with a send_handle; [EFdFail id] a failed sendmsg that carried it.  [trace s] is chronological.  Request ids are
@@ -94,18 +95,54 @@ Theorem C05_try_write_never_overtakes_reachable :
 Proof. intros. exact (proj1 (final_inv beh blk o sa pw cfg ip ops)). Qed.
 Print Assumptions C05_try_write_never_overtakes_reachable.
 
-(* Shutdown (model of the code after the repair of uv__stream_io, which now
-   drains only when write_queue and write_completed_queue are both empty):
-   uv_write after a successful uv_shutdown is refused (UV_EPIPE, or UV_EBADF
-   once the handle is closed); nothing is written after shutdown(2) and the
-   write queue is empty from then on (end-of-stream after the last byte); after
-   the shutdown callback there is no write callback any more, nothing is
-   written and no uv_write is accepted - together with
-   C05_cb_exactly_once_in_order: every write accepted before uv_shutdown has had
-   its callback when the shutdown callback runs. *)
-Theorem C05_shutdown_last :
+(* Shutdown.  (Model of the code after the repairs of uv__stream_io - drain only when
+   write_queue and write_completed_queue are both empty - and of uv__stream_connect -
+   POLLOUT stays armed while a shutdown is pending; after a failed connect the pending
+   shutdown is carried out unless the callback started another connect.)
+
+   For every script, behaviour, oracle and start configuration, connect retries included:
+   accepted uv_shutdown calls = shutdown callbacks + (1 if one is still pending) at all
+   times, and when a shutdown callback runs every write accepted so far has had its
+   callback. *)
+Theorem C05_shutdown_cb_exactly_once :
   forall beh blk o sa pw cfg ip ops,
   let s := exec beh (init blk o sa pw cfg ip) ops in
+  nsh0 (trace s) = (nshcb (trace s) + (if shutreq s then 1 else 0))%nat /\
+  (forall c l1 l2, trace s = l1 ++ EShutCb c :: l2 ->
+     forall id, In (ERet id 0%Z) l1 -> In id (cb_ids l1)).
+Proof. exact shutdown_cb_exactly_once. Qed.
+Print Assumptions C05_shutdown_cb_exactly_once.
+
+(* ... and the request does not stay pending: a pending uv_shutdown always has a wake-up
+   (POLLOUT armed or watcher in the pending queue), also when it was issued while the
+   connect was pending.  Proved for scripts in which no connect is started again on the
+   handle ([noconn]); with connect retries it is checked by the correspondence monitor
+   only (gap: C05_progress_refuted shows what a retry from a write callback does). *)
+Theorem C05_shutdown_progress_partial :
+  forall beh blk o sa pw cfg ip ops,
+  noconn ops -> (forall k, noconn (beh k)) ->
+  shutdown_progress (exec beh (init blk o sa pw cfg ip) ops).
+Proof. exact shutdown_progress_holds. Qed.
+Print Assumptions C05_shutdown_progress_partial.
+
+(* The remaining clauses - uv_write after a successful uv_shutdown is refused (UV_EPIPE, or
+   UV_EBADF once closed); nothing is written after shutdown(2) and the write queue is empty
+   from then on; after the shutdown callback no write callback, no byte, no accepted
+   uv_write - hold as long as no connect has set UV_HANDLE_WRITABLE again on a stream where
+   it was clear (ghost event EReopen: uv_tcp_connect retried after uv_shutdown, or
+   uv_pipe_connect retried after a failed first attempt).  Refuted without that condition:
+   maybe_new_socket ors the flag back in. *)
+Theorem C05_shutdown_last_refuted :
+  exists beh cfg ops l1 l2 id,
+    trace (exec beh (init false [AErr 32] 0%Z [] cfg false) ops) = l1 ++ EShut 0%Z :: l2 /\
+    In (ERet id 0%Z) l2.
+Proof. exact shutdown_last_refuted. Qed.
+Print Assumptions C05_shutdown_last_refuted.
+
+Theorem C05_shutdown_last_partial :
+  forall beh blk o sa pw cfg ip ops,
+  let s := exec beh (init blk o sa pw cfg ip) ops in
+  ~ In EReopen (trace s) ->
   (forall l1 l2, trace s = l1 ++ EShut 0%Z :: l2 ->
      forall id c, In (ERet id c) l2 -> c = UV_EPIPE \/ c = UV_EBADF) /\
   (forall a l1 l2, trace s = l1 ++ ESysShut a :: l2 -> forall i off n, ~ In (EChunk i off n) l2) /\
@@ -113,28 +150,44 @@ Theorem C05_shutdown_last :
   (forall c l1 l2, trace s = l1 ++ EShutCb c :: l2 ->
      cb_ids l2 = [] /\ (forall i off n, ~ In (EChunk i off n) l2) /\ (forall id, ~ In (ERet id 0%Z) l2)).
 Proof. exact shutdown_last. Qed.
-Print Assumptions C05_shutdown_last.
+Print Assumptions C05_shutdown_last_partial.
 
-(* the callback-order clause on its own, and the input that refuted it before the repair *)
-Theorem C05_shutdown_cb_last :
-  forall beh blk o sa pw cfg ip ops, shutdown_cb_last (trace (exec beh (init blk o sa pw cfg ip) ops)).
-Proof. exact shutdown_cb_last_holds. Qed.
-Print Assumptions C05_shutdown_cb_last.
-
+(* the inputs that showed the two repaired shutdown defects, on the repaired model *)
 Example C05_shutdown_last_former_witness :
   trace (exec beh_refute (init false [] 0%Z [] None false) [OWrite [1]; ORun; ORun]) =
     [EWrite 0 1; EChunk 0 0 1; ERet 0 0; EQ 0; ECb 0 0 0; EWrite 1 2; EChunk 1 0 2; ERet 1 0;
      EShut 0; ECb 1 0 0; ESysShut 0; EShutCb 0; EQ 0; EQ 0].
 Proof. vm_compute. reflexivity. Qed.
 
-(* A non-empty write queue, or a pending connect, on a stream that is not closing
-   always has POLLOUT armed or its watcher in the pending queue. *)
-Theorem C05_progress :
+Example C05_shutdown_while_connecting_former_witnesses :
+  trace (exec (fun _ => []) (init false [] 0%Z [] (Some (true, Some 115%positive, [0%Z], [])) false)
+              [OShutdown; ORun; ORun]) =
+    [EShut 0; EQ 0; EConnCb 0; ESysShut 0; EShutCb 0; EQ 0; EQ 0] /\
+  trace (exec (fun _ => []) (init false [] 0%Z [] (Some (true, Some 115%positive, [111%Z], [])) false)
+              [OWrite [3]; OShutdown; ORun; ORun]) =
+    [EWrite 0 3; ERet 0 0; EQ 3; EShut 0; EQ 3; EConnCb (-111); ECb 0 UV_ECANCELED 0;
+     ESysShut (-107); EShutCb (-107); EQ 0; EQ 0].
+Proof. exact shutdown_while_connecting_former_witnesses. Qed.
+
+(* A non-empty write queue, or a pending connect, on a stream that is not closing always has
+   POLLOUT armed or its watcher in the pending queue.  Refuted by the faithful model when a
+   connect is started again from a write callback: uv__stream_io then finds both queues empty
+   and uv__drain stops POLLOUT under the pending connect.  Proved for scripts without such a
+   retry ([noconn]). *)
+Theorem C05_progress_refuted :
+  exists beh cfg ops,
+    let s := exec beh (init false [AErr 32] 0%Z [] cfg false) ops in
+    connecting s = true /\ closing s = false /\ armed s = false /\ fed s = false.
+Proof. exact progress_refuted. Qed.
+Print Assumptions C05_progress_refuted.
+
+Theorem C05_progress_partial :
   forall beh blk o sa pw cfg ip ops,
+  noconn ops -> (forall k, noconn (beh k)) ->
   let s := exec beh (init blk o sa pw cfg ip) ops in
   wq s <> [] \/ connecting s = true -> closing s = false -> armed s = true \/ fed s = true.
 Proof. exact progress. Qed.
-Print Assumptions C05_progress.
+Print Assumptions C05_progress_partial.
 
 (* While a connect is pending uv_try_write returns UV_EAGAIN without a system
    call, and uv_write only queues (no system call, POLLOUT untouched). *)
@@ -151,33 +204,6 @@ Theorem C05_write_while_connecting :
   wq (api_write s bufs) = wq s ++ [mkReq (next_id s) (sumN bufs) bufs O 0 0%Z false false].
 Proof. exact write_while_connecting. Qed.
 Print Assumptions C05_write_while_connecting.
-
-(* A pending uv_shutdown must keep a wake-up (else its callback never runs and the
-   loop never exits).  Refuted by the faithful model: uv_shutdown issued while the
-   connect is pending with nothing queued - uv__stream_connect stops POLLOUT
-   ("write_queue empty") and returns without uv__drain.  What is proved: an
-   accepted uv_shutdown on a stream with no connect pending leaves a wake-up;
-   with writes queued at connect completion POLLOUT stays armed (C05_progress).
-   Gap: that the wake-up persists until uv__drain on connected streams is checked
-   by the correspondence monitor (settle rule) only. *)
-Theorem C05_shutdown_progress_refuted :
-  exists beh cfg ops, ~ shutdown_progress (exec beh (init false [] 0%Z [] cfg false) ops).
-Proof. exact shutdown_progress_refuted. Qed.
-Print Assumptions C05_shutdown_progress_refuted.
-
-Theorem C05_shutdown_progress_partial :
-  forall s, Prog s -> connecting s = false ->
-  writable s = true -> shut s = false -> shutreq s = false -> closing s = false -> closed s = false ->
-  shutreq (api_shutdown s) = true /\
-  (armed (api_shutdown s) = true \/ fed (api_shutdown s) = true).
-Proof. exact shutdown_progress_partial. Qed.
-Print Assumptions C05_shutdown_progress_partial.
-
-(* [Prog] holds in every state reached by [exec] *)
-Theorem C05_shutdown_progress_partial_reachable :
-  forall beh blk o sa pw cfg ip ops, Prog (exec beh (init blk o sa pw cfg ip) ops).
-Proof. intros. apply exec_prog, Prog_init. Qed.
-Print Assumptions C05_shutdown_progress_partial_reachable.
 
 (* uv_write2: over everything the OS accepted of one request the descriptor is attached
    to exactly one sendmsg - the first accepted one - and to none after; requests without
@@ -269,11 +295,11 @@ Qed.
    shutdown are queued, the connect completes, then write callback, shutdown(2),
    shutdown callback; and a refused connect cancels what was queued *)
 Example C05_example_connecting :
-  trace (exec (fun _ => []) (init false [] 0%Z [] (Some (true, Some 115%positive, [115%Z; 0%Z])) false)
+  trace (exec (fun _ => []) (init false [] 0%Z [] (Some (true, Some 115%positive, [115%Z; 0%Z], [])) false)
               [OWrite [0]; OShutdown; ORun; ORun; ORun]) =
     [EWrite 0 0; ERet 0 0; EQ 0; EShut 0; EQ 0; EQ 0; EConnCb 0; EQ 0; EChunk 0 0 0; ECb 0 0 0;
      ESysShut 0; EShutCb 0; EQ 0] /\
-  trace (exec (fun _ => []) (init false [] 0%Z [] (Some (true, Some 111%positive, [])) false)
+  trace (exec (fun _ => []) (init false [] 0%Z [] (Some (true, Some 111%positive, [], [])) false)
               [OWrite [3]; OWrite [0]; ORun]) =
     [EWrite 0 3; ERet 0 0; EQ 3; EWrite 1 0; ERet 1 0; EQ 3; EConnCb (-111); ECb 0 UV_ECANCELED 0;
      ECb 1 UV_ECANCELED 0; EQ 0].
